@@ -137,3 +137,239 @@ Qed.
 
 Theorem opp_up (x : f32) : down (Bopp (up x)) = Bopp x.
 Proof. rewrite <- up_opp. apply down_up. Qed.
+
+(* ------------------------------------------------------------------ shapes, bounds *)
+
+Lemma up_finite_shape s m e H :
+  exists m' e' H', up (B754_finite s m e H : f32) = B754_finite s m' e' H'.
+Proof.
+  set (X := B754_finite s m e H : f32).
+  destruct (up_finite_correct X eq_refl) as (U1 & U2 & U3).
+  destruct (sign_F2R s m e) as [S1 _]. cbv zeta in S1.
+  change (F2R (Float radix2 (cond_Zopp s (Zpos m)) e)) with (B2R X) in S1.
+  destruct (up X) as [s'|s'| |s' m' e' H'] eqn:E; try discriminate.
+  - cbn [B2R] in U1. rewrite <- U1 in S1. rewrite Rcompare_Eq in S1 by reflexivity. destruct s; discriminate.
+  - cbn [Bsign] in U3. subst s'. eauto.
+Qed.
+
+Lemma no_overflow64 (s : R) (e : Z) :
+  (e < 1024)%Z -> (fexp64 (e + 1) <= e)%Z -> Rabs s <= bpow radix2 e ->
+  Rlt_bool (Rabs (rnd64 s)) (bpow radix2 1024) = true.
+Proof.
+  intros He Hf Hs. apply Rlt_bool_true. eapply Rle_lt_trans.
+  - apply abs_round_le_generic; [auto with typeclass_instances | auto with typeclass_instances | apply generic_format_bpow; exact Hf | exact Hs].
+  - apply bpow_lt. exact He.
+Qed.
+
+Lemma bpow_129 : bpow radix2 129 = bpow radix2 128 + bpow radix2 128.
+Proof. change 129%Z with (128 + 1)%Z. rewrite bpow_plus_1. cbn [radix_val radix2]. lra. Qed.
+
+Lemma format32_FLT (x : f32) : FLT_format radix2 (-149) 24 (B2R x).
+Proof. exact (FLT_format_B2R 24 128 _ x). Qed.
+
+Local Ltac bools := repeat match goal with s : bool |- _ => destruct s end.
+
+(* ------------------------------------------------------------------ double rounding: + and - *)
+
+Lemma dr_plus_finite (x y : f32) :
+  is_finite x = true -> is_finite y = true -> down (plus64 (up x) (up y)) = plus32 x y.
+Proof.
+  intros Fx Fy.
+  destruct (up_finite_correct x Fx) as (X1 & X2 & X3). destruct (up_finite_correct y Fy) as (Y1 & Y2 & Y3).
+  unfold plus64, plus32.
+  pose proof (Bplus_correct 53 1024 prec64 pmax64 mode_NE (up x) (up y) X2 Y2) as P64.
+  pose proof (Bplus_correct 24 128 prec32 pmax32 mode_NE x y Fx Fy) as P32.
+  cbn [round_mode] in P64, P32. rewrite X1, Y1, X3, Y3 in P64.
+  assert (Hs : Rabs (B2R x + B2R y) <= bpow radix2 129).
+  { rewrite bpow_129. eapply Rle_trans; [apply Rabs_triang|].
+    pose proof (abs_B2R_lt_emax 24 128 x). pose proof (abs_B2R_lt_emax 24 128 y). lra. }
+  rewrite (no_overflow64 _ 129) in P64; [| lia | cbv; discriminate | exact Hs].
+  destruct P64 as (Z1 & Z2 & Z3).
+  pose proof (down_correct _ Z2) as D. rewrite Z1 in D.
+  assert (DR : rnd32 (rnd64 (B2R x + B2R y)) = rnd32 (B2R x + B2R y)).
+  { change (round radix2 (FLT_exp (-149) 24) ZnearestE (round radix2 (FLT_exp (-1074) 53) ZnearestE (B2R x + B2R y))
+            = round radix2 (FLT_exp (-149) 24) ZnearestE (B2R x + B2R y)).
+    apply round_round_plus_FLT; try lia; try reflexivity; apply format32_FLT. }
+  rewrite DR in D.
+  destruct (Rlt_bool (Rabs (rnd32 (B2R x + B2R y))) (bpow radix2 128)).
+  - destruct D as (D1 & D2 & D3). destruct P32 as (Q1 & Q2 & Q3).
+    apply B2R_Bsign_inj; auto; [congruence | rewrite D3, Z3, Q3; reflexivity].
+  - destruct P32 as (Q1 & Q2). apply B2SF_inj. rewrite D, Q1. f_equal.
+    rewrite Z3. pose proof (B2R_sign x Fx) as SX. pose proof (B2R_sign y Fy) as SY.
+    destruct (Bsign x), (Bsign y); try discriminate Q2; cbn [andb];
+      destruct (Rcompare_spec (B2R x + B2R y) 0); try reflexivity; lra.
+Qed.
+
+Theorem dr_plus (x y : f32) : down (plus64 (up x) (up y)) = plus32 x y.
+Proof.
+  destruct (is_finite x) eqn:Fx; destruct (is_finite y) eqn:Fy.
+  - apply dr_plus_finite; assumption.
+  - destruct y as [s|s| |s m e H]; try discriminate;
+      (destruct x as [s'|s'| |s' m' e' H']; try discriminate;
+       [| destruct (up_finite_shape s' m' e' H') as (m2 & e2 & H2 & E); unfold plus64; rewrite E]); reflexivity.
+  - destruct x as [s|s| |s m e H]; try discriminate;
+      (destruct y as [s'|s'| |s' m' e' H']; try discriminate;
+       [| destruct (up_finite_shape s' m' e' H') as (m2 & e2 & H2 & E); unfold plus64; rewrite E]); reflexivity.
+  - destruct x as [s|s| |s m e H]; try discriminate; destruct y as [s'|s'| |s' m' e' H']; try discriminate;
+      bools; reflexivity.
+Qed.
+
+Lemma dr_minus_finite (x y : f32) :
+  is_finite x = true -> is_finite y = true -> down (minus64 (up x) (up y)) = minus32 x y.
+Proof.
+  intros Fx Fy.
+  destruct (up_finite_correct x Fx) as (X1 & X2 & X3). destruct (up_finite_correct y Fy) as (Y1 & Y2 & Y3).
+  unfold minus64, minus32.
+  pose proof (Bminus_correct 53 1024 prec64 pmax64 mode_NE (up x) (up y) X2 Y2) as P64.
+  pose proof (Bminus_correct 24 128 prec32 pmax32 mode_NE x y Fx Fy) as P32.
+  cbn [round_mode] in P64, P32. rewrite X1, Y1, X3, Y3 in P64.
+  assert (Hs : Rabs (B2R x - B2R y) <= bpow radix2 129).
+  { rewrite bpow_129. unfold Rminus. eapply Rle_trans; [apply Rabs_triang|]. rewrite Rabs_Ropp.
+    pose proof (abs_B2R_lt_emax 24 128 x). pose proof (abs_B2R_lt_emax 24 128 y). lra. }
+  rewrite (no_overflow64 _ 129) in P64; [| lia | cbv; discriminate | exact Hs].
+  destruct P64 as (Z1 & Z2 & Z3).
+  pose proof (down_correct _ Z2) as D. rewrite Z1 in D.
+  assert (DR : rnd32 (rnd64 (B2R x - B2R y)) = rnd32 (B2R x - B2R y)).
+  { change (round radix2 (FLT_exp (-149) 24) ZnearestE (round radix2 (FLT_exp (-1074) 53) ZnearestE (B2R x - B2R y))
+            = round radix2 (FLT_exp (-149) 24) ZnearestE (B2R x - B2R y)).
+    apply round_round_minus_FLT; try lia; try reflexivity; apply format32_FLT. }
+  rewrite DR in D.
+  destruct (Rlt_bool (Rabs (rnd32 (B2R x - B2R y))) (bpow radix2 128)).
+  - destruct D as (D1 & D2 & D3). destruct P32 as (Q1 & Q2 & Q3).
+    apply B2R_Bsign_inj; auto; [congruence | rewrite D3, Z3, Q3; reflexivity].
+  - destruct P32 as (Q1 & Q2). apply B2SF_inj. rewrite D, Q1. f_equal.
+    rewrite Z3. pose proof (B2R_sign x Fx) as SX. pose proof (B2R_sign y Fy) as SY.
+    destruct (Bsign x), (Bsign y); try discriminate Q2; cbn [andb negb];
+      destruct (Rcompare_spec (B2R x - B2R y) 0); try reflexivity; lra.
+Qed.
+
+Theorem dr_minus (x y : f32) : down (minus64 (up x) (up y)) = minus32 x y.
+Proof.
+  destruct (is_finite x) eqn:Fx; destruct (is_finite y) eqn:Fy.
+  - apply dr_minus_finite; assumption.
+  - destruct y as [s|s| |s m e H]; try discriminate;
+      (destruct x as [s'|s'| |s' m' e' H']; try discriminate;
+       [| destruct (up_finite_shape s' m' e' H') as (m2 & e2 & H2 & E); unfold minus64; rewrite E]); reflexivity.
+  - destruct x as [s|s| |s m e H]; try discriminate;
+      (destruct y as [s'|s'| |s' m' e' H']; try discriminate;
+       [| destruct (up_finite_shape s' m' e' H') as (m2 & e2 & H2 & E); unfold minus64; rewrite E]); reflexivity.
+  - destruct x as [s|s| |s m e H]; try discriminate; destruct y as [s'|s'| |s' m' e' H']; try discriminate;
+      bools; reflexivity.
+Qed.
+
+(* ------------------------------------------------------------------ double rounding: * *)
+
+Lemma dr_mult_finite (x y : f32) :
+  is_finite x = true -> is_finite y = true -> down (mult64 (up x) (up y)) = mult32 x y.
+Proof.
+  intros Fx Fy.
+  destruct (up_finite_correct x Fx) as (X1 & X2 & X3). destruct (up_finite_correct y Fy) as (Y1 & Y2 & Y3).
+  unfold mult64, mult32.
+  pose proof (Bmult_correct 53 1024 prec64 pmax64 mode_NE (up x) (up y)) as P64.
+  pose proof (Bmult_correct 24 128 prec32 pmax32 mode_NE x y) as P32.
+  cbn [round_mode] in P64, P32. rewrite X1, Y1, X2, Y2, X3, Y3 in P64. rewrite Fx, Fy in P32. cbn [andb] in P64, P32.
+  assert (Hs : Rabs (B2R x * B2R y) <= bpow radix2 256).
+  { change 256%Z with (128 + 128)%Z. rewrite bpow_plus, Rabs_mult.
+    pose proof (abs_B2R_lt_emax 24 128 x). pose proof (abs_B2R_lt_emax 24 128 y).
+    apply Rmult_le_compat; try apply Rabs_pos; lra. }
+  rewrite (no_overflow64 _ 256) in P64; [| lia | cbv; discriminate | exact Hs].
+  destruct P64 as (Z1 & Z2 & Z3). specialize (Z3 (finite_not_nan _ Z2)).
+  pose proof (down_correct _ Z2) as D. rewrite Z1 in D.
+  assert (DR : rnd32 (rnd64 (B2R x * B2R y)) = rnd32 (B2R x * B2R y)).
+  { change (round radix2 (FLT_exp (-149) 24) ZnearestE (round radix2 (FLT_exp (-1074) 53) ZnearestE (B2R x * B2R y))
+            = round radix2 (FLT_exp (-149) 24) ZnearestE (B2R x * B2R y)).
+    apply round_round_mult_FLT; try lia; try reflexivity; try apply format32_FLT; auto with typeclass_instances. }
+  rewrite DR in D.
+  destruct (Rlt_bool (Rabs (rnd32 (B2R x * B2R y))) (bpow radix2 128)).
+  - destruct D as (D1 & D2 & D3). destruct P32 as (Q1 & Q2 & Q3). specialize (Q3 (finite_not_nan _ Q2)).
+    apply B2R_Bsign_inj; auto; [congruence | rewrite D3, Z3, Q3; reflexivity].
+  - apply B2SF_inj. rewrite D, P32, Z3. reflexivity.
+Qed.
+
+Theorem dr_mult (x y : f32) : down (mult64 (up x) (up y)) = mult32 x y.
+Proof.
+  destruct (is_finite x) eqn:Fx; destruct (is_finite y) eqn:Fy.
+  - apply dr_mult_finite; assumption.
+  - destruct y as [s|s| |s m e H]; try discriminate;
+      (destruct x as [s'|s'| |s' m' e' H']; try discriminate;
+       [| destruct (up_finite_shape s' m' e' H') as (m2 & e2 & H2 & E); unfold mult64; rewrite E]); reflexivity.
+  - destruct x as [s|s| |s m e H]; try discriminate;
+      (destruct y as [s'|s'| |s' m' e' H']; try discriminate;
+       [| destruct (up_finite_shape s' m' e' H') as (m2 & e2 & H2 & E); unfold mult64; rewrite E]); reflexivity.
+  - destruct x as [s|s| |s m e H]; try discriminate; destruct y as [s'|s'| |s' m' e' H']; try discriminate;
+      bools; reflexivity.
+Qed.
+
+(* ------------------------------------------------------------------ double rounding: / *)
+
+Lemma B2R_finite_nonzero s m e H : B2R (B754_finite s m e H : f32) <> 0.
+Proof.
+  destruct (sign_F2R s m e) as [S1 _]. cbv zeta in S1. intros E.
+  change (F2R (Float radix2 (cond_Zopp s (Zpos m)) e)) with (B2R (B754_finite s m e H : f32)) in S1.
+  rewrite E, Rcompare_Eq in S1 by reflexivity. destruct s; discriminate.
+Qed.
+
+Lemma dr_div_finite (x : f32) sy my ey Hy :
+  is_finite x = true ->
+  let y := (B754_finite sy my ey Hy : f32) in down (div64 (up x) (up y)) = div32 x y.
+Proof.
+  intros Fx y.
+  assert (Fy : is_finite y = true) by reflexivity.
+  assert (Sy : is_finite_strict y = true) by reflexivity.
+  assert (Ny : B2R y <> 0) by apply B2R_finite_nonzero.
+  destruct (up_finite_correct x Fx) as (X1 & X2 & X3). destruct (up_finite_correct y Fy) as (Y1 & Y2 & Y3).
+  unfold div64, div32.
+  assert (Ny' : B2R (up y) <> 0) by (rewrite Y1; exact Ny).
+  pose proof (Bdiv_correct 53 1024 prec64 pmax64 mode_NE (up x) (up y) Ny') as P64.
+  pose proof (Bdiv_correct 24 128 prec32 pmax32 mode_NE x y Ny) as P32.
+  cbn [round_mode] in P64, P32. rewrite X1, Y1, X2, X3, Y3 in P64. rewrite Fx in P32.
+  assert (Hs : Rabs (B2R x / B2R y) <= bpow radix2 277).
+  { unfold Rdiv. rewrite Rabs_mult, Rabs_inv.
+    change 277%Z with (128 + 149)%Z. rewrite bpow_plus.
+    pose proof (abs_B2R_lt_emax 24 128 x) as Bx.
+    pose proof (abs_B2R_ge_emin 24 128 y Sy) as By.
+    change (SpecFloat.emin 24 128) with (- (149))%Z in By. rewrite bpow_opp in By.
+    assert (P149 : 0 < bpow radix2 149) by apply bpow_gt_0.
+    assert (Pinv : 0 < / bpow radix2 149) by (apply Rinv_0_lt_compat; exact P149).
+    apply Rmult_le_compat; try apply Rabs_pos; [left; apply Rinv_0_lt_compat; lra | lra |].
+    rewrite <- (Rinv_inv (bpow radix2 149)). apply Rinv_le_contravar; lra. }
+  rewrite (no_overflow64 _ 277) in P64; [| lia | cbv; discriminate | exact Hs].
+  destruct P64 as (Z1 & Z2 & Z3). specialize (Z3 (finite_not_nan _ Z2)).
+  pose proof (down_correct _ Z2) as D. rewrite Z1 in D.
+  assert (DR : rnd32 (rnd64 (B2R x / B2R y)) = rnd32 (B2R x / B2R y)).
+  { change (round radix2 (FLT_exp (-149) 24) ZnearestE (round radix2 (FLT_exp (-1074) 53) ZnearestE (B2R x / B2R y))
+            = round radix2 (FLT_exp (-149) 24) ZnearestE (B2R x / B2R y)).
+    apply round_round_div_FLT; try lia; try reflexivity; try apply format32_FLT; try exact Ny.
+    exists 1%Z. reflexivity. }
+  rewrite DR in D.
+  destruct (Rlt_bool (Rabs (rnd32 (B2R x / B2R y))) (bpow radix2 128)).
+  - destruct D as (D1 & D2 & D3). destruct P32 as (Q1 & Q2 & Q3). specialize (Q3 (finite_not_nan _ Q2)).
+    apply B2R_Bsign_inj; auto; [congruence | rewrite D3, Z3, Q3; reflexivity].
+  - apply B2SF_inj. rewrite D, P32, Z3. reflexivity.
+Qed.
+
+Theorem dr_div (x y : f32) : down (div64 (up x) (up y)) = div32 x y.
+Proof.
+  destruct y as [sy|sy| |sy my ey Hy].
+  - destruct x as [s'|s'| |s' m' e' H']; try reflexivity.
+    destruct (up_finite_shape s' m' e' H') as (m2 & e2 & H2 & E); unfold div64; rewrite E; reflexivity.
+  - destruct x as [s'|s'| |s' m' e' H']; try reflexivity.
+    destruct (up_finite_shape s' m' e' H') as (m2 & e2 & H2 & E); unfold div64; rewrite E; reflexivity.
+  - destruct x as [s'|s'| |s' m' e' H']; try reflexivity.
+    destruct (up_finite_shape s' m' e' H') as (m2 & e2 & H2 & E); unfold div64; rewrite E; reflexivity.
+  - destruct (is_finite x) eqn:Fx.
+    + apply dr_div_finite. exact Fx.
+    + destruct (up_finite_shape sy my ey Hy) as (m2 & e2 & H2 & E); unfold div64; rewrite E.
+      destruct x as [s'|s'| |s' m' e' H']; try discriminate; reflexivity.
+Qed.
+
+(* ------------------------------------------------------------------ truncation to an integer *)
+
+Theorem trunc_up (x : f32) : is_finite (up x) = is_finite x /\ (is_finite x = true -> Btrunc (up x) = Btrunc x).
+Proof.
+  split.
+  - destruct x as [s|s| |s m e H]; try reflexivity.
+    destruct (up_finite_correct (B754_finite s m e H) eq_refl) as (_ & U2 & _). exact U2.
+  - intros F. destruct (up_finite_correct x F) as (U1 & U2 & _).
+    apply eq_IZR. rewrite !Btrunc_correct, U1; auto with typeclass_instances.
+Qed.
